@@ -123,9 +123,21 @@ _SAFE_BUILTINS = {
     "divmod": divmod, "zip": lambda *a: list(zip(*a)), "set": set,
     "frozenset": frozenset, "enumerate": lambda x: list(enumerate(x)),
     "memoryview": lambda x: x, "dict": dict, "any": lambda x: any(x), "all": lambda x: all(x),
-    "next": lambda it, *d: (list(it)[0] if list(it) else (d[0] if d else (_ for _ in ()).throw(StopIteration()))),
-    "iter": lambda x: list(x),
+    "next": lambda it, *d: _next(it, *d),
+    "iter": lambda x: iter(x),
 }
+
+
+def _next(it, *d):
+    if not hasattr(it, "__next__"):
+        raise TypeError("not an iterator")
+    try:
+        return next(it)
+    except StopIteration:
+        if d:
+            return d[0]
+        raise Raised("StopIteration")
+
 _MAX_ITEMS = 70000
 _BM = {}
 
@@ -146,6 +158,7 @@ class Ev:
     def _mk(self, *a, **kw):
         e = type(self)(self.repo, *a, **kw)
         e.hooks = self.hooks
+        e.gstate = self.gstate
         if getattr(self, "model_objects", False):
             e.model_objects = True
         if "ignore_calls" in self.__dict__:
@@ -159,6 +172,7 @@ class Ev:
         self.env = dict(env or {})
         self.self_cls = self_cls      # ClassInfo for `self.X` / cls attrs
         self.depth = depth
+        self.gstate = {}     # module-level mutable objects of this evaluation session: (module, name) -> the ONE object
 
     # -- enum tables -------------------------------------------------------
     def enum_members(self, ci):
@@ -200,6 +214,20 @@ class Ev:
                             attrs[a] = e2.ev(expr)
                         except Unknown:
                             pass
+                    if len(attrs) < len({a for a, _ in amap}):
+                        # the constructor computes through locals: run its statements in order
+                        e3 = self._mk(ci.mod, env=dict(env))
+                        for st3 in init.body:
+                            try:
+                                if e3.run_stmt(st3) is not _FALL:
+                                    break
+                            except (Unknown, Raised):
+                                for x3 in ast.walk(st3):
+                                    if isinstance(x3, ast.Name) and isinstance(x3.ctx, ast.Store):
+                                        e3.env.pop(x3.id, None)
+                        for k3, v3 in e3.env.items():
+                            if k3.startswith("self.") and k3[5:] not in attrs and k3[5:] in {a for a, _ in amap}:
+                                attrs[k3[5:]] = v3
                 out.append(EnumMember(ci.name, name, val, attrs))
         return out
 
@@ -256,7 +284,15 @@ class Ev:
             if r[0] == "const":
                 if n.id in getattr(r[2], "built", {}):
                     return self.module_built(r[2], n.id)
-                return self._mk(r[2], depth=self.depth + 1).ev(r[1])
+                gk = (getattr(r[2], "name", id(r[2])), n.id)
+                if gk in self.gstate:
+                    return self.gstate[gk]
+                v = self._mk(r[2], depth=self.depth + 1).ev(r[1])
+                if isinstance(v, (dict, list, set, bytearray)):
+                    # a module-level container is ONE object for the life of the process: what one call stores in it
+                    # (a lookup memo, a registry) the next call finds
+                    self.gstate[gk] = v
+                return v
             if r[0] == "class":
                 return ClassRef(r[1])
             if r[0] == "func":
@@ -265,7 +301,7 @@ class Ev:
             return {"True": True, "False": False, "None": None}[n.id]
         if n.id in _SAFE_BUILTINS:
             return _bm(n.id)
-        if n.id in ("dict", "type", "isinstance", "NoneType"):
+        if n.id in ("dict", "type", "isinstance", "NoneType", "array", "memoryview"):
             return _bm(n.id)
         if self.self_cls is not None:
             # a class-level expression refers to earlier class-level names by their bare name
@@ -322,12 +358,20 @@ class Ev:
                 break
         c, v = self.repo.find_attr(ci, attr)
         if v is not None:
-            return self._mk(c.mod, self_cls=c, depth=self.depth + 1).ev(v)
+            gk = ("class", c.name, attr)
+            if gk in self.gstate:
+                return self.gstate[gk]
+            r = self._mk(c.mod, self_cls=c, depth=self.depth + 1).ev(v)
+            if isinstance(r, (dict, list, set, bytearray)):
+                self.gstate[gk] = r       # a class-level container is one object shared by all instances and calls
+            return r
         # property with a pure body?
         c, m = self.repo.find_method(ci, attr)
         if m is not None and any(isinstance(d, ast.Name) and d.id == "property"
                                  for d in m.decorator_list):
             return self.call_func(m, c.mod, [("self", "<self>")], self_cls=ci)
+        if m is not None and not m.decorator_list:
+            return Opaque("self.%s" % attr)      # a bound method of the object under evaluation, taken as a value
         raise Unknown("class attr %s.%s" % (ci.name, attr))
 
     def ev_Attribute(self, n):
@@ -732,6 +776,10 @@ class Ev:
             for t in ts:
                 if isinstance(t, tuple) and len(t) == 2 and t[0] == "builtin" and t[1] in _TYPES:
                     py.append(_TYPES[t[1]])
+                elif isinstance(t, tuple) and len(t) == 2 and t[0] == "builtin" and t[1] == "array":
+                    py.append(Arr)
+                elif isinstance(t, tuple) and len(t) == 2 and t[0] == "builtin" and t[1] == "memoryview":
+                    py.append(memoryview)
                 else:
                     raise Unknown("isinstance type")
             if isinstance(args[0], (EnumMember, ClassRef, Opaque, ReMatch)):
@@ -752,6 +800,16 @@ class Ev:
             except _re.error:
                 raise Raised("re.error", n)
             return None if m is None else ReMatch(m)
+        if fname in ("bytes.maketrans", "bytearray.maketrans", "str.maketrans") and not kw:
+            try:
+                return {"bytes": bytes, "bytearray": bytearray, "str": str}[fname.split(".")[0]].maketrans(*args)
+            except (ValueError, TypeError) as e_:
+                raise Raised(type(e_).__name__, n)
+        if fname in ("bytes.fromhex", "bytearray.fromhex") and len(args) == 1 and isinstance(args[0], str) and not kw:
+            try:
+                return {"bytes": bytes, "bytearray": bytearray}[fname.split(".")[0]].fromhex(args[0])
+            except ValueError:
+                raise Raised("ValueError", n)
         # struct single-field models
         if fname == "struct.pack" and not kw:
             try:
@@ -901,6 +959,8 @@ class Ev:
                 raise Raised("OverflowError", n)
         if isinstance(recv, Arr) and name == "tobytes" and not args and not kw:
             return recv.tobytes()
+        if isinstance(recv, (bytes, bytearray)) and name == "tobytes" and not args and not kw:
+            return bytes(recv)          # (a memoryview over it: modelled as the buffer itself)
         if isinstance(recv, (bytes, bytearray)) and name == "translate" and len(args) == 1 and not kw:
             tab = args[0]
             if isinstance(tab, Arr):
